@@ -4,6 +4,20 @@
  * depth (where the ball is affordable) for "shortest". */
 #include "vf.h"
 
+#include <fenv.h>
+
+/* The caller's floating-point rounding mode is part of the environment a library call runs in (interval arithmetic,
+ * CGAL-style protected scopes set FE_UPWARD).  The three API calls judged here are made under g_round; the oracle
+ * (geometric adjacency, BFS) always runs under FE_TONEAREST.  The judgement is the property's own — a valid contiguous
+ * shortest path — not "same output as under the default mode". */
+static int g_round = FE_TONEAREST;
+#define UNDER_ROUNDING(stmt) \
+    do { \
+        if (g_round != FE_TONEAREST) fesetround(g_round); \
+        stmt; \
+        if (g_round != FE_TONEAREST) fesetround(FE_TONEAREST); \
+    } while (0)
+
 static vf_map dist;
 static int64_t n_pairs, n_succ, n_fail, n_cells;
 
@@ -22,8 +36,9 @@ static void judge_path(H3Index a, H3Index b, int64_t bfs) {
     char spec[96];
     snprintf(spec, sizeof spec, "path %016" PRIx64 " %016" PRIx64, a, b);
     int64_t size = -7, gd = -7;
-    H3Error es = gridPathCellsSize(a, b, &size);
-    H3Error ed = gridDistance(a, b, &gd);
+    H3Error es, ed;
+    if (g_round != FE_TONEAREST) snprintf(spec, sizeof spec, "rpath %d %016" PRIx64 " %016" PRIx64, g_round, a, b);
+    UNDER_ROUNDING(es = gridPathCellsSize(a, b, &size); ed = gridDistance(a, b, &gd));
     n_pairs++;
     if ((es == 0) != (ed == 0) || (!es && size != gd + 1)) {
         vf_violation_spec(spec, "size", "gridPathCellsSize", key, "", "gridPathCellsSize rc=%u size=%" PRId64 " but gridDistance rc=%u distance=%" PRId64, es, size, ed, gd);
@@ -35,7 +50,8 @@ static void judge_path(H3Index a, H3Index b, int64_t bfs) {
             vf_violation_spec(spec, "must-succeed", "gridPathCellsSize", key, "", "size function rc=%u for %s cells %016" PRIx64 " %016" PRIx64, es, bfs ? "neighbouring" : "identical", a, b);
         /* failure path of gridPathCells itself: announced size unknown -> a 1-slot guarded buffer must stay untouched beyond it */
         H3Index *one = vf_buf_new(8, 0);
-        H3Error ep = gridPathCells(a, b, one);
+        H3Error ep;
+        UNDER_ROUNDING(ep = gridPathCells(a, b, one));
         if (!ep) vf_violation_spec(spec, "size", "gridPathCells", key, "", "gridPathCells succeeded although gridPathCellsSize failed (rc=%u)", es);
         if (vf_buf_check(one)) vf_violation_spec(spec, "overrun", "gridPathCells", key, "", "wrote outside a 1-slot buffer on failure");
         vf_buf_free(one);
@@ -46,7 +62,8 @@ static void judge_path(H3Index a, H3Index b, int64_t bfs) {
         return;
     }
     H3Index *p = vf_buf_new((size_t)size * 8, 0);
-    H3Error e = gridPathCells(a, b, p);
+    H3Error e;
+    UNDER_ROUNDING(e = gridPathCells(a, b, p));
     if (vf_buf_check(p)) vf_violation_spec(spec, "overrun", "gridPathCells", key, "", "wrote outside the announced %" PRId64 " slots", size);
     if (e) {
         n_fail++;
@@ -113,6 +130,49 @@ static void whole_res(int res, int maxd, int stride) {
     vf_map_free(&g.index);
 }
 
+/* paths that pass a pentagon at some distance: origins in the belt lo..hi steps around each of the twelve pentagons, every
+ * tstride-th target within maxd steps (a straight line between two base cells that neighbour a pentagon base cell grazes the
+ * pentagon's sextants: the coordinates localIjToCell has to resolve there are reached by no round-trip test) */
+static void near_pentagons(int res, int lo, int hi, int ostride, int maxd, int tstride) {
+    vf_resgraph g;
+    vf_case("graph %d", res);
+    if (vf_resgraph_build(&g, res)) {
+        vf_violation("error", "latLngToCell", (uint64_t)res, "", "cannot build adjacency graph of res %d", res);
+        return;
+    }
+    int16_t *d = malloc((size_t)g.n * 2), *pd = malloc((size_t)g.n * 2);
+    int32_t *q = malloc((size_t)g.n * 4);
+    for (int32_t i = 0; i < g.n; i++) pd[i] = 32767;
+    for (int32_t i = 0; i < g.n; i++)
+        if (ref_is_pentagon(g.cells[i])) {
+            vf_resgraph_bfs(&g, i, d, q);
+            for (int32_t j = 0; j < g.n; j++)
+                if (d[j] >= 0 && d[j] < pd[j]) pd[j] = d[j];
+        }
+    int64_t taken = 0;
+    for (int32_t i = 0; i < g.n; i++) {
+        if (pd[i] < lo || pd[i] > hi) continue;
+        if (taken++ % ostride || !VF_MINE(taken / ostride)) continue;
+        vf_resgraph_bfs(&g, i, d, q);
+        vf_case("belt %016" PRIx64 " %d %d", g.cells[i], maxd, tstride);
+        if (!VF_GUARD()) {
+            vf_assert_report("gridPathCells", g.cells[i]);
+            VF_UNGUARD();
+            continue;
+        }
+        for (int32_t j = i % tstride; j < g.n; j += tstride)
+            if (d[j] >= 0 && d[j] <= maxd) judge_path(g.cells[i], g.cells[j], d[j]);
+        VF_UNGUARD();
+        vf_add("origins.pentagon_belt", 1);
+    }
+    free(d);
+    free(pd);
+    free(q);
+    free(g.cells);
+    free(g.adj);
+    vf_map_free(&g.index);
+}
+
 static void case_ball(H3Index o, int R) {
     vf_case("ball %016" PRIx64 " %d", o, R);
     H3Index *order = NULL;
@@ -167,6 +227,9 @@ static void run(void) {
     whole_res(0, 40, 1);
     whole_res(1, 40, 1);
     whole_res(2, 40, VF_T(4, 1));
+    near_pentagons(3, 2, 18, VF_T(12, 2), 30, VF_T(5, 2));
+    near_pentagons(4, 4, 45, VF_T(160, 24), 75, VF_T(23, 7));
+    if (VF.thorough) near_pentagons(5, 10, 120, 3000, 200, 61);
     H3Index seeds[600];
     int64_t szR;
     int RO = VF_T(2, 3), RB = VF_T(8, 20);
@@ -203,6 +266,27 @@ static void run(void) {
         }
     }
     vf_buf_free(d);
+    /* the same judgement with the API calls made under the three directed rounding modes */
+    {
+        static const int modes[3] = {FE_UPWARD, FE_DOWNWARD, FE_TOWARDZERO};
+        int64_t before = n_pairs;
+        for (int m = 0; m < 3; m++) {
+            g_round = modes[m];
+            for (int res = 0; res <= 15; res++) {
+                int n = vf_special_seeds(res, 1, seeds, 600);
+                for (int i = 0; i < n && i < 14; i++)
+                    if (VF_MINE(idx++)) case_ball(seeds[i], res <= 1 ? 2 : VF_T(3, 6));
+                for (int i = 0; i < VF_T(2, 12); i++) case_ball(vf_rand_cell(&r, res), VF_T(3, 5));
+                if (res >= 8)
+                    for (int i = 0; i < VF_T(2, 10); i++) {
+                        int L = 50 + (int)vf_below(&r, 300);
+                        case_long(vf_rand_cell(&r, res), i & 1 ? L : -L, i & 2 ? L : (int)vf_below(&r, (uint64_t)L));
+                    }
+            }
+        }
+        g_round = FE_TONEAREST;
+        vf_add("pairs.under_directed_rounding", n_pairs - before);
+    }
     vf_add("pairs", n_pairs);
     vf_add("paths.success", n_succ);
     vf_add("paths.failed", n_fail);
@@ -212,7 +296,8 @@ static void replay(const char *spec) {
     uint64_t a, b;
     int R, di, dj;
     vf_map_init(&dist, 4096);
-    if (sscanf(spec, "path %" SCNx64 " %" SCNx64, &a, &b) == 2) {
+    if (sscanf(spec, "rpath %d %" SCNx64 " %" SCNx64, &R, &a, &b) == 3) g_round = R;
+    if (sscanf(spec, "path %" SCNx64 " %" SCNx64, &a, &b) == 2 || sscanf(spec, "rpath %*d %" SCNx64 " %" SCNx64, &a, &b) == 2) {
         int64_t bfs = -1, gd;
         if (!gridDistance(a, b, &gd) && gd < 60) { /* recompute the oracle distance when affordable */
             H3Index *order = NULL;
@@ -226,6 +311,8 @@ static void replay(const char *spec) {
         else if (geo_adjacent(a, b) == 1)
             bfs = 1;
         judge_path(a, b, bfs);
+    } else if (sscanf(spec, "belt %" SCNx64 " %d %d", &a, &R, &di) == 3) {
+        case_ball(a, R > 30 ? 30 : R);
     } else if (sscanf(spec, "ball %" SCNx64 " %d", &a, &R) == 2 || sscanf(spec, "from %" SCNx64 " %d", &a, &R) == 2)
         case_ball(a, R > 25 ? 25 : R);
     else if (sscanf(spec, "long %" SCNx64 " %d %d", &a, &di, &dj) == 3)
